@@ -95,7 +95,7 @@ func before(a, b int) bool { return a >= 0 && (b < 0 || a < b) }
 func gen(repo string) (map[string]string, error) {
 	var b strings.Builder
 	b.WriteString(fg.Header("constants and structural facts of the scheduler plugin (model M4-core)",
-		dir+"bind.go", dir+"resync.go", dir+"filter.go", dir+"event.go", dir+"util/utils.go", "pkg/api/galaxy/constant/constant.go"))
+		dir+"bind.go", "pkg/ipam/floatingip/ipam_crd.go", dir+"resync.go", dir+"filter.go", dir+"event.go", dir+"util/utils.go", "pkg/api/galaxy/constant/constant.go"))
 	b.WriteString("namespace Galaxy.Generated.Plugin\n\n")
 
 	// ---- constants
@@ -292,6 +292,33 @@ func gen(repo string) (map[string]string, error) {
 	f1 := firstIdx(rs, rm.Body, "finished(pod)")
 	fmt.Fprintf(&b, "/-- runningAndUidMatch: unknown errors keep the ip; a different stored UID means \"not this pod\"; then finished(pod) -/\ndef runningAndUidMatchChecksUID : Bool := %s\n\n",
 		fg.LeanBool(e1 >= 0 && before(e1, u1) && before(u1, f1) && f1 >= 0))
+
+	// ---- ConfigurePool: a stored object belongs to the first pool whose pod subnet AND ranges contain its address
+	ic, err := fg.ParseFile(repo, "pkg/ipam/floatingip/ipam_crd.go")
+	if err != nil {
+		return nil, err
+	}
+	cp, err := ic.Fn("crdIpam", "ConfigurePool")
+	if err != nil {
+		return nil, err
+	}
+	lookupOK := false
+	ast.Inspect(cp, func(n ast.Node) bool {
+		ifs, ok := n.(*ast.IfStmt)
+		if !ok {
+			return true
+		}
+		c := strings.ReplaceAll(ic.Src(ifs.Cond), " ", "")
+		if c == "fipConf.IPNet().Contains(netIP)&&fipConf.Contains(netIP)" {
+			body := ic.Src(ifs.Body)
+			if strings.Contains(body, "found = true") && strings.Contains(body, "tmpCacheAllocated[ip.Name] = tmpFip") &&
+				strings.Contains(body, "break") {
+				lookupOK = true
+			}
+		}
+		return true
+	})
+	fmt.Fprintf(&b, "/-- ConfigurePool: a listed object is kept for the first pool whose pod subnet AND ip ranges contain its address -/\ndef configurePoolMatchesSubnetAndRanges : Bool := %s\n\n", fg.LeanBool(lookupOK))
 
 	// ---- lockPod at the entry points
 	fl, err := fg.ParseFile(repo, dir+"filter.go")
